@@ -121,6 +121,8 @@ def parse_spec(path):
                 cfg['trivial_externals'].append(rest)
             elif key in ('@driver', '@filter', '@component'):
                 cfg[key[1:]] = rest
+            elif key == '@typename_pass':
+                cfg['typename_pass'] = rest.strip() not in ('0', 'no')
             elif key == '@abstract_tables':
                 cfg['abstract_tables'] = rest.strip() not in ('0', 'no')
             elif key == '@tolerated_clang_errors':
